@@ -3,18 +3,21 @@ import os, sys
 sys.path.insert(0, os.path.dirname(__file__))
 import ltsgen as G
 
-def frames(rng, n):
-    """packets of a plausible stream: SPS, PPS, then GOPs (key start, video packets, some audio)"""
+def frames(rng, n, flv=False):
+    """packets of a plausible stream: SPS, PPS, then GOPs (key start, video packets, some audio);
+    FLV: metadata, video and audio sequence headers, then GOPs"""
     out, i = [], 1
+    if flv and rng.random() < 0.8:
+        out.append([i, 5]); i += 1
     while len(out) < n:
         if rng.random() < 0.5:
             out += [[i, 3], [i + 1, 4]]; i += 2
         out.append([i, 2]); i += 1
         for _ in range(rng.randint(0, 5)):
-            out.append([i, rng.choice([1, 1, 1, 0])]); i += 1
+            out.append([i, 1 if flv else rng.choice([1, 1, 1, 0])]); i += 1
     return out[:n]
 
-def join_case(rng, pkts, k, gop, racy):
+def join_case(rng, pkts, k, gop, racy, flv=False):
     m = len(pkts)
     sched = [[G.PUB, 0]] * (3 * k)
     if racy:   # the join races with the publication of packet k: every interleaving of 3 attach steps and 3 publish steps
@@ -23,7 +26,7 @@ def join_case(rng, pkts, k, gop, racy):
         sched += mix
     sched += [[G.ATT, 0]] * 3 + [[G.PUB, 0]] * (3 * (m - k) + 3)
     sched += [[G.CONS, 0]] * (2 * (m + 6) + 4)
-    return [G.FIXED, 1, 1000, gop, pkts, [0], sched, [0]]
+    return [G.FIXED, 1, 1000, gop, pkts, [0], sched, [0], flv]
 
 # ---- byte-level classification (generators after the worker's ad-hoc scripts) ----
 def rb(rng, n): return bytes(rng.randrange(256) for _ in range(n))
@@ -131,18 +134,19 @@ def run(ck):
                              "set: the GOP cache does not start there")
     ck.extra["packetisations_wellformed"] = wf
     cases = []
-    for _ in range(40 if ck.thorough else 3):
-        pkts = frames(rng, rng.randint(3, 22))
-        for gop in (True, False):
-            for k in range(len(pkts) + 1):
-                cases.append(join_case(rng, pkts, k, gop, racy=False))
-                if rng.random() < 0.5:
-                    cases.append(join_case(rng, pkts, min(k, len(pkts) - 1), gop, racy=True))
+    for _ in range(40 if ck.thorough else 2):
+        for flv in (False, True):
+            pkts = frames(rng, rng.randint(3, 22 if not flv else 12), flv)
+            for gop in (True, False):
+                for k in range(len(pkts) + 1):
+                    cases.append(join_case(rng, pkts, k, gop, False, flv))
+                    if rng.random() < 0.5:
+                        cases.append(join_case(rng, pkts, min(k, len(pkts) - 1), gop, True, flv))
     ck.stream("join-at-every-prefix", cases, "C02_lts", "C02_lts", None,
               nontrivial=lambda c: len(c[4]) >= 4, sig=lambda c, e, o: "lts", timeout=1500)
     return ck.finish(rule="(1) random RTP payloads (single NAL, STAP/AP incl. truncated and zero-size entries, FU with all S/E bits, garbage, "
                           "non-video channels) and FLV tags (full frame-type/codec nibbles, near-miss onMetaData) through the real "
                           "H264Cache/HevcCache/FlvCache CachePack+PushTo; (2) legal packetisations produced by the Gallina packetiser; "
                           "(3) frame sequences (SPS/PPS, key starts, video, audio) published through WriteRtpPacket on a real H.264 "
-                          "media.Stream; a recording consumer joins after every prefix length, GOP cache on and off, and "
+                          "media.Stream, and FLV tags through WriteFlvTag to FLV consumers; a recording consumer joins after every prefix length, GOP cache on and off, and "
                           "in every interleaving of the three attach steps with the three publish steps of the next packet")
